@@ -524,6 +524,8 @@ def scenario_as_calls(d):
               "verilog._ieee_1800_2017_verilog_reserved_keywords" if d.get("reserved") else "set()"))
     for i in d.get("order", []):
         tr.append(f"ns.get_name(s{i})" + (f"  -> {d['names'][i]!r}" if d.get("names") else ""))
+    if d.get("duid_offset_dummy_signals") is not None:
+        tr.append(f"# again in the same way, but with {d['duid_offset_dummy_signals']} dummy Signal() created before s0: names {d.get('names_at_offset')}")
     return tr
 
 
@@ -534,13 +536,31 @@ def replay_namer(rule, d):
     namer = importlib.import_module("litex.gen.fhdl.namer")
     V = importlib.import_module("litex.gen.fhdl.verilog")
     k = len(d["signals"])
-    sigs = [Signal() for _ in range(k)]
-    if d.get("reverse"):
-        sigs = sigs[::-1]
-    for s, sd in zip(sigs, d["signals"]):
-        s.backtrace = [tuple(e) for e in sd["backtrace"]]
-        s.name_override = sd["name_override"]
-        s.related = sigs[sd["related"]] if sd["related"] is not None else None
+    reserved_on = V._ieee_1800_2017_verilog_reserved_keywords
+
+    def configure(sigs):
+        if d.get("reverse"):
+            sigs = sigs[::-1]
+        for s, sd in zip(sigs, d["signals"]):
+            s.backtrace = [tuple(e) for e in sd["backtrace"]]
+            s.name_override = sd["name_override"]
+            s.related = sigs[sd["related"]] if sd["related"] is not None else None
+        return sigs
+
+    if rule.startswith("namer.repro.duid_offset"):
+        # the scenario built first, then again after 1, 2, 3, 5, 8, 13 dummy Signals: same names for the same signals?
+        arr = [Signal() for _ in range(k + max(DUID_OFFSETS))]
+        outcome = {}
+        for off in DUID_OFFSETS:
+            sigs = configure(arr[off:off + k])
+            try:
+                ns = namer.build_signal_namespace(set(sigs), reserved_on)
+                outcome[off] = [ns.get_name(x) for x in sigs]
+            except Exception as e:
+                outcome[off] = repr(e)
+        return dict(reproduced=any(v != outcome[0] for v in outcome.values()), names=outcome[0],
+                    names_per_offset={str(o): v for o, v in outcome.items()})
+    sigs = configure([Signal() for _ in range(k)])
     res = bool(d.get("reserved"))
     if rule == "namer.repro.order_dependent_exception":
         outcome = []
@@ -564,6 +584,7 @@ def run_namer(cfg, seed):
     name, kind = cfg[0], cfg[1]
     part = cfg[2] if len(cfg) > 2 else 0
     N = Namer()
+    N.full_offsets = kind in ("kw", "flat12")
     sample = None
     if kind == "kw":
         kws = sorted(KEYWORDS_1800_2017)
@@ -591,7 +612,7 @@ def run_namer(cfg, seed):
     smp = N.describe(bts, ovs, rel, rev)
     smp["names_per_(reserved,order)"] = {f"{'on' if res else 'off'}:{''.join(map(str, perm))}": nm for (res, perm), nm in sorted(r.items(), reverse=True)}
     cover = dict(N.cover, scenarios=N.n_scen, nontrivial_scenarios=N.n_nontrivial, distinct_outcome_patterns=len(N.outcomes),
-                 conformance_reruns=N.n_conf, violating_runs={k: v[0] for k, v in sorted(N.viol.items())})
+                 conformance_reruns=N.n_conf, duid_stride_of_consecutive_signals=N.duid_stride, violating_runs={k: v[0] for k, v in sorted(N.viol.items())})
     if N.exc_samples:
         cover["exception_samples"] = N.exc_samples
     if kind != "kw" and N.n_nontrivial == 0:
@@ -604,6 +625,7 @@ def run_namer(cfg, seed):
 # Netlist level
 # ------------------------------------------------------------------------------------------------------------------
 HASHSEEDS = (("1", 0), ("4242", 100003))      # (PYTHONHASHSEED, heap padding objects) of the two fresh processes
+NETLIST_DUMMIES = (1, 2, 3, 5, 8, 13, 64)     # further fresh processes create this many dummy Signals before the design
 CHILD_TIMEOUT = 240
 
 PORT_RE = re.compile(r"^\s+(input|output|inout)\s+(wire|reg)\s+(signed\s+)?(\[\d+:\d+\]\s+)?(?P<id>[^\s,;]+),?$")
@@ -660,12 +682,12 @@ def parse_declarations(text):
     return decls
 
 
-def run_child(design, hashseed, pad):
+def run_child(design, hashseed, pad, ndummy=0, times=1):
     env = dict(os.environ)
     env["PYTHONHASHSEED"] = hashseed
     env["PYTHONDONTWRITEBYTECODE"] = "1"
     verif = os.path.dirname(os.path.dirname(os.path.abspath(__file__)))
-    cmd = [sys.executable, "-c", "import fsmc; from checks import c02_designs as d; import sys; d.child_main(sys.argv[1:])", design, str(pad)]
+    cmd = [sys.executable, "-c", "import fsmc; from checks import c02_designs as d; import sys; d.child_main(sys.argv[1:])", design, str(pad), str(ndummy), str(times)]
     p = subprocess.run(cmd, cwd=verif, env=env, stdout=subprocess.PIPE, stderr=subprocess.PIPE, timeout=CHILD_TIMEOUT)
     if p.returncode != 0:
         raise C02MachineryError(f"child for {design!r} exited {p.returncode}: {p.stderr.decode()[-2000:]}")
@@ -753,7 +775,7 @@ def aggregate(viol):
 def run_design(cfg, seed):
     name, design = cfg[0], cfg[2]
     order = HASHSEEDS[::-1] if seed % 2 else HASHSEEDS
-    docs = [run_child(design, hs, pad) for hs, pad in order]
+    docs = [run_child(design, hs, pad, 0, 2 if i == 0 else 1) for i, (hs, pad) in enumerate(order)]
     viol, cover, sample = analyse_netlist(docs[0])
     viol_b, cover_b, _ = analyse_netlist(docs[1])
     # (4) reproducibility: text, data files and the sequence of handed-out names
@@ -770,6 +792,32 @@ def run_design(cfg, seed):
                          detail=dict(files_a=sorted(docs[0]["data_files"]), files_b=sorted(docs[1]["data_files"]))))
     elif sorted(v["rule"] for v in viol) != sorted(v["rule"] for v in viol_b):
         raise C02MachineryError("identical texts but different verdicts in the two runs")
+    # (4b) the same design at another place of the DUID sequence: built a second time in the same process, and built in
+    # fresh processes after N dummy Signals (every N of the menu); the text must be the one of the plain run
+    def first_diff(tx):
+        la, lb = ta.split("\n"), tx.split("\n")
+        k = next((i for i, (x, y) in enumerate(zip(la, lb)) if x != y), min(len(la), len(lb)))
+        return k, la, lb
+    n_conv = 2
+    for tx in docs[0]["rebuilds"]:
+        n_conv += 1
+        tx = mask_dates(tx)
+        if tx != ta:
+            k, la, lb = first_diff(tx)
+            viol.append(dict(rule="netlist.repro.second_build", msg="building and converting the same design a second time in the same process "
+                             f"emits different Verilog, first difference at line {k + 1}: {la[k] if k < len(la) else '<eof>'!r} vs {lb[k] if k < len(lb) else '<eof>'!r}",
+                             detail=dict(line=k + 1, first_build=la[max(0, k - 2):k + 3], second_build=lb[max(0, k - 2):k + 3])))
+    for nd in NETLIST_DUMMIES:
+        dn = run_child(design, order[0][0], order[0][1], nd)
+        n_conv += 1
+        tx = mask_dates(dn["verilog"])
+        if tx != ta or dn["data_files"] != docs[0]["data_files"]:
+            k, la, lb = first_diff(tx)
+            viol.append(dict(rule="netlist.repro.duid_offset", msg=f"creating {nd} unrelated Signal(s) before the design is built changes the emitted "
+                             f"Verilog, first difference at line {k + 1}: {la[k] if k < len(la) else '<eof>'!r} vs {lb[k] if k < len(lb) else '<eof>'!r}",
+                             detail=dict(dummy_signals=nd, line=k + 1, plain_run=la[max(0, k - 2):k + 3], offset_run=lb[max(0, k - 2):k + 3])))
+    cover["conversions"] = n_conv
+    cover["duid_offset_processes"] = len(NETLIST_DUMMIES)
     viol = aggregate(viol)
     for v in viol:
         v["detail"]["design"] = design
@@ -777,7 +825,7 @@ def run_design(cfg, seed):
     n_decl = cover["declared"]
     if n_decl < 3 or cover["named_objects"] < 3:
         raise C02MachineryError(f"vacuous design: {cover}")
-    return dict(cfg=name, exhaustive=True, violations=viol, evaluations=2, distinct=1 if cover["suffixed_objects"] or viol else 0,
+    return dict(cfg=name, exhaustive=True, violations=viol, evaluations=n_conv, distinct=1 if cover["suffixed_objects"] or viol else 0,
                 sample=sample, cover=cover)
 
 
@@ -809,9 +857,6 @@ def replay(rec):
     if rule.startswith("namer."):
         return replay_namer(rule, d)
     design = d["design"]
-    docs = [run_child(design, hs, pad) for hs, pad in HASHSEEDS]
-    viol, _, _ = analyse_netlist(docs[0])
-    if mask_dates(docs[0]["verilog"]) != mask_dates(docs[1]["verilog"]):
-        viol.append(dict(rule="netlist.repro.text", msg="texts differ"))
-    hit = [v for v in viol if v["rule"] == rule]
-    return dict(reproduced=bool(hit), design=design, found=[dict(rule=v["rule"], msg=v["msg"]) for v in viol])
+    r = run_design(("netlist:" + design, "design", design), 0)      # plain + other hash seed + second build + DUID offsets
+    hit = [v for v in r["violations"] if v["rule"] == rule]
+    return dict(reproduced=bool(hit), design=design, found=[dict(rule=v["rule"], msg=v["msg"]) for v in r["violations"]])
